@@ -36,6 +36,9 @@ var replayDrivers = map[string]replayDriver{
 	"session":       {Pkg: "pkg/exporter", File: "exporter/session_replay_test.go", Test: "TestVerifReplaySession", TimeoutS: 120},
 	"packet":        {Pkg: "pkg/collector", File: "collector/packet_replay_test.go", Test: "TestVerifReplayPacket", TimeoutS: 120},
 	"registry-enum": {Pkg: "pkg/registry", File: "registry/enum_replay_test.go", Test: "TestVerifEnumRegistry", TimeoutS: 120},
+	"tcpframe":      {Pkg: "pkg/collector", File: "collector/tcpframe_replay_test.go", Test: "TestVerifReplayTCPFrame", TimeoutS: 120},
+	"tlscfg":        {Pkg: "pkg/exporter", File: "exporter/tlscfg_replay_test.go", Test: "TestVerifReplayTLSConfig", TimeoutS: 120},
+	"tlscfg-server": {Pkg: "pkg/collector", File: "collector/tlscfg_replay_test.go", Test: "TestVerifReplayServerTLSConfig", TimeoutS: 120},
 	"window":        {Pkg: "cmd/collector", File: "cmdcollector/window_replay_test.go", Test: "TestVerifReplayWindow", TimeoutS: 120},
 	"expiry": {Pkg: "pkg/intermediate", File: "intermediate/expiry_replay_test.go", Test: "TestVerifReplayExpiry", TimeoutS: 120,
 		Rewrite: [3]string{"aggregate.go", "time.Now()", "verifNow()"}},
